@@ -18,7 +18,6 @@ import pickle
 from numbers import Number
 
 import networkx as nx
-import numpy as np
 from ruamel.yaml import YAML
 
 from pycel.excelformula import ExcelFormula
@@ -30,6 +29,7 @@ from pycel.excelutil import (
     is_address,
     iterative_eval_tracker,
     list_like,
+    PyCelException,
 )
 from pycel.excelwrapper import ExcelOpxWrapper, ExcelOpxWrapperNoData
 
@@ -287,7 +287,12 @@ class ExcelCompiler:
                 excel_compiler._make_cells(address)
             add_line_numbers(address.address, lineno)
 
-        excel_compiler._process_gen_graph()
+        try:
+            excel_compiler._process_gen_graph()
+        except PyCelException:
+            # a cell of a saved range cannot be evaluated (as in the model
+            # that was saved), which is reported when it is asked for
+            pass
         del data['cell_map']
 
         # process the rest of the data from the file
